@@ -201,3 +201,77 @@ package account
 //@   requires adb != nil && amount != nil
 //@   ensures [credit] ghost(bal) == @store(old(ghost(bal)), addr, absZ(old(balOf(addr)) + old(big(amount)))) && ghost(supply) == old(ghost(supply)) - old(balOf(addr)) + absZ(old(balOf(addr)) + old(big(amount)))
 //@   modifies ghost(bal), ghost(supply)
+
+// ---------------------------------------------------------------------------------------------
+// The ledger behind SubBalance/AddBalance (C06): balances are storage slots of the token contract bound to
+// the token name. stor[o][k] is the content of slot k of account object o (the trie-backed storage with
+// its caches, trusted behind GetData/SetData); the binding of a token name and the slot key of a holder
+// are abstract functions; beval is the unsigned big-endian value of a slot.
+//@ ghost stor (Array Int (Array Bytes Bytes))
+//@ spec abstract fn bindFound(name string) bool
+//@ spec abstract fn bindContract(name string) common.Address
+//@ spec abstract fn bindPos(name string) uint64
+//@ spec abstract fn bindDec(name string) uint64
+//@ spec abstract fn erc20Key(a common.Address, pos uint64) Bytes
+//@ spec macro fn slotWas(s *AccountDB, name string, a common.Address) Int = @beval(@select(@select(old(ghost(stor)), registered(ref(s), bindContract(name))), erc20Key(a, bindPos(name))))
+//@ spec macro fn slotVal(s *AccountDB, name string, a common.Address) Int = @beval(@select(@select(ghost(stor), registered(ref(s), bindContract(name))), erc20Key(a, bindPos(name))))
+
+//@ func AccountDB.GetERC20Binding
+//@   option trusted
+//@   ensures found == bindFound(name) && contract == bindContract(name) && position == bindPos(name) && decimal == bindDec(name)
+//@   modifies nothing
+
+//@ func AccountDB.GetERC20Key
+//@   option trusted
+//@   ensures result != nil && bytes(result) == erc20Key(address, position)
+//@   modifies nothing
+
+//@ func AccountDB.getOrNewAccountObject
+//@   option trusted
+//@   requires adb != nil
+//@   ensures [obj]  result != nil && ref(result) == registered(ref(adb), addr) && !result.deleted
+//@   ensures [keep] forall a common.Address :: old(registered(ref(adb), a)) != 0 && !ptr(accountObject, old(registered(ref(adb), a))).deleted ==> registered(ref(adb), a) == old(registered(ref(adb), a))
+//@   modifies ghost(acct)
+
+//@ func accountObject.GetData
+//@   option trusted
+//@   requires ao != nil
+//@   ensures bytes(result) == @select(@select(ghost(stor), ref(ao)), old(bytes(key)))
+//@   modifies nothing
+
+//@ func accountObject.SetData
+//@   option trusted
+//@   requires ao != nil
+//@   ensures ghost(stor) == @store(old(ghost(stor)), ref(ao), @store(@select(old(ghost(stor)), ref(ao)), old(bytes(key)), old(bytes(value))))
+//@   modifies ghost(stor)
+
+//@ func accountObject.setData
+//@   option trusted
+//@   requires ao != nil
+//@   ensures ghost(stor) == @store(old(ghost(stor)), ref(ao), @store(@select(old(ghost(stor)), ref(ao)), old(bytes(key)), old(bytes(value))))
+//@   modifies ghost(stor)
+
+// Tokens without a binding live in the holder's own storage; that branch is delegated to the account object.
+//@ func accountObject.SubFT
+//@   option trusted
+//@   modifies ghost(stor)
+
+//@ func accountObject.AddFT
+//@   option trusted
+//@   modifies ghost(stor)
+
+// A bound token: the debit happens exactly when the slot covers the (rescaled) amount, and then the slot
+// holds the difference; a refused debit changes no slot.
+//@ func AccountDB.SubFT
+//@   property C06
+//@   requires self != nil
+//@   ensures [nil]     balance == nil ==> !result1
+//@   ensures [decides] balance != nil && bindFound(ftName) ==> result1 == (slotWas(self, ftName, addr) >= fmt20(old(big(balance)), int64(bindDec(ftName))))
+//@   ensures [debited] balance != nil && bindFound(ftName) && result1 ==> slotVal(self, ftName, addr) == slotWas(self, ftName, addr) - fmt20(old(big(balance)), int64(bindDec(ftName)))
+//@   ensures [refused] balance != nil && bindFound(ftName) && !result1 ==> ghost(stor) == old(ghost(stor))
+
+// The credit stores |slot + amount| (Bytes() drops the sign): exact for amounts >= 0.
+//@ func AccountDB.AddFT
+//@   property C06
+//@   requires self != nil
+//@   ensures [credited] balance != nil && bindFound(ftName) ==> slotVal(self, ftName, addr) == absZ(slotWas(self, ftName, addr) + fmt20(old(big(balance)), int64(bindDec(ftName))))
